@@ -112,6 +112,9 @@ func TestVerifBounded_C14_Instances(t *testing.T) {
 			za := append(append([]int{}, a...), -1, -1, -1)
 			rec(make([]int, small), 0, 2, func(b []int) {
 				zb := append([]int{-1, -1, -1}, b...)
+				if za[3] != -1 && zb[3] != -1 {
+					return // the two prefixes overlap at one alphabet token: a token is held by one instance ring-wide
+				}
 				check([][]int{za, zb}, 2)
 			})
 		})
